@@ -257,15 +257,6 @@ Fixpoint all_fails_c (closed mmap : bool) (front : N) (o : qopts) (idxids : bool
   end.
 Definition all_fails := all_fails_c false false.
 
-(* executable form of ReadOnlyRefine.consistent: sections with equal multihash carry equal bytes *)
-Definition consistentb (bs : list block) : bool :=
-  forallb (fun b1 => forallb (fun b2 =>
-    match cid_parse (fst b1), cid_parse (fst b2) with
-    | Some p1, Some p2 =>
-        negb ((c_mhcode p1 =? c_mhcode p2)%N && bytes_eqb (c_digest p1) (c_digest p2)) || bytes_eqb (snd b1) (snd b2)
-    | _, _ => true
-    end) bs) bs.
-
 Fixpoint val_eqb (a b : val) : bool :=
   match a, b with
   | VN x, VN y => N.eqb x y
